@@ -164,7 +164,9 @@ SStop ==
 
 SJunk ==
   /\ IsEv("Junk")
-  /\ viol' = Report(C14Tags(IF alive THEN {<<"C14", "Conversation", "byte that is neither a clock byte, a command frame nor a token: " \o ToString(Rec[l].byte)>>} ELSE {}))
+  /\ viol' = Report(C14Tags(IF ~alive THEN {}
+                             ELSE IF Rec[l].mode = "Overlap" THEN {<<"C14", "Conversation", "a command frame starts while the card is still sending (the rest of a data packet or a response)">>}
+                             ELSE {<<"C14", "Conversation", "byte that is neither a clock byte, a command frame nor a token: " \o ToString(Rec[l].byte)>>}))
   /\ c14' = (c14 \/ alive)
   /\ l' = l + 1
   /\ UNCHANGED <<sid, cfg, c, mem, exp, call, seen, needinit, first, alive, stuck, dl, nst, lost>>
